@@ -56,7 +56,7 @@ from spyne.model.primitive.datetime import TIME_PATTERN, DATE_PATTERN
 from spyne.util.cdict import cdict
 
 
-_date_re = re.compile(DATE_PATTERN)
+_date_re = re.compile(DATE_PATTERN + r'\Z')
 _time_re = re.compile(TIME_PATTERN)
 _time_offset_re = re.compile(
                         r'(?P<tz_hr>[+-][0-9]{2}):(?P<tz_min>[0-9]{2})$')
@@ -69,6 +69,7 @@ _duration_re = re.compile(
         r'(?:T(?:(?P<hours>[0-9]+)H)?'
         r'(?:(?P<minutes>[0-9]+)M)?'
         r'(?:(?P<seconds>[0-9]+(\.[0-9]+)?)S)?)?'
+        r'\Z'
     )
 
 
@@ -519,6 +520,10 @@ class InProtocolBase(ProtocolMixin):
         """
 
         try:
+            # strptime also reads 2020-1-2
+            if _date_re.match(string) is None:
+                raise ValueError(string)
+
             return date(*(strptime(string, u'%Y-%m-%d')[0:3]))
 
         except ValueError:
@@ -657,6 +662,13 @@ class InProtocolBase(ProtocolMixin):
 
     def duration_from_unicode(self, cls, string):
         match = _duration_re.match(string)
+
+        # a duration has at least one component, and so has its time part
+        if match is not None and (string.endswith('T') or
+                             all(v is None for k, v in match.groupdict().items()
+                                                           if k != 'sign')):
+            match = None
+
         if match is None:
             raise ValidationError(string,
                 "Time data %%r does not match regex '%s'" %
